@@ -91,7 +91,10 @@ StepClauses(c, r, xs, sts, k) ==
                            ELSE LeTol(Zero, e) /\ LeTol(RMul(e, m), One)) THEN {}
                   ELSE LET d == Est(c, xs, k) IN
                        IF d # "undef" /\ RClose(e, d, TolP, TolP) THEN {} ELSE {"valid"}
-    IN  statC \cup unitC \cup rangeC \cup validC
+        \* the fixed bet is, by definition, the configured lambda at every draw
+        ruleC == IF c.method = "BETTING" /\ c.estim = "fixedbet" /\ (e = "undef" \/ ~RClose(e, c.lam, TolS, TolS))
+                 THEN {"rule:fixedbet"} ELSE {}
+    IN  statC \cup unitC \cup rangeC \cup validC \cup ruleC
 
 OwnClauses(c, r) ==
     IF ~HasOut(r) THEN {"exc:" \o r.exc.type \o "@" \o r.exc.site}
